@@ -402,6 +402,8 @@ class Emitter:
         s.intr = collections.OrderedDict()
         s.typeids = {}
         s.icall_hooks = []
+        s.perm = {}
+        s.perm_sites = []
 
     # ---- types
     def ctype(s, t, decl=''):
@@ -646,6 +648,7 @@ class FnEmit:
             blocks[bn] = [s.parse_inst(l) for l in lines]
         s.blocks = blocks
         # provenance: locals that are an i64* view of pointer-typed memory (bitcast T** -> i64*), as libstdc++'s atomic<T*> code makes them
+        s.guarded = {}
         s.p64 = set()
         for bn, insts in blocks.items():
             for ins in insts:
@@ -1058,6 +1061,10 @@ class FnEmit:
         def setd(t, expr):
             s.declare(dst, t)
             B('%s = %s;' % (s.lname(dst), expr))
+        if op in ('load', 'store') and not ins.get('atomic') and ins['ptr'].k == 'local' and ins['ptr'].name in s.guarded:
+            mac, basee = s.guarded[ins['ptr'].name]
+            B('%s(%s); /* permission check: guarded member */' % (mac, basee))
+            em.perm_sites.append(dict(fn=em.dm.get(s.f.name, s.f.name), macro=mac, op=op, src=('%s:%d' % s.cur_loc) if s.cur_loc else None))
         if op == 'alloca':
             if dst in s.promoted:
                 s.declare(dst, ins['ty'])
@@ -1096,6 +1103,9 @@ class FnEmit:
                 rt = em.resolve(t)
                 t = rt.els[int(ix.val)] if rt.k == 'struct' else rt.el
             base = ins['base']
+            if em.perm and ins['bt'].k == 'named' and len(ins['idx']) == 2 and ins['idx'][1].k == 'int' and (ins['bt'].name, int(ins['idx'][1].val)) in em.perm \
+                    and ins['idx'][0].k == 'int' and int(ins['idx'][0].val) == 0:
+                s.guarded[dst] = (em.perm[(ins['bt'].name, int(ins['idx'][1].val))], s.val(base))
             bv = V('local', name=base.name, ty=base.ty) if base.k == 'local' else base
             expr = em.cgep(ins['bt'], base, ins['idx'], s) if not (base.k == 'local' and base.name in s.promoted) else em.cgep(ins['bt'], V('rawc', c='(&%s)' % s.lname(base.name), ty=base.ty), ins['idx'], s)
             setd(T('ptr', to=t), expr)
@@ -1261,7 +1271,7 @@ def demangle(names):
     return dict(zip(names, out))
 
 
-def translate(ll_path, roots_rx, boundary_rx, out_prefix, names=None, no_names=False, types=None, gnames=None, opt_names=None, ptypes=None):
+def translate(ll_path, roots_rx, boundary_rx, out_prefix, names=None, no_names=False, types=None, gnames=None, opt_names=None, ptypes=None, perms=None):
     """roots_rx / boundary_rx: regexes on demangled signatures. names: {c_alias: regex-on-demangled (must match exactly one function)}.
     Writes out_prefix_decl.h, out_prefix_body.c, out_prefix.json. Returns summary dict."""
     text = open(ll_path).read()
@@ -1286,6 +1296,17 @@ def translate(ll_path, roots_rx, boundary_rx, out_prefix, names=None, no_names=F
     bnd |= {'__clang_call_terminate'} & set(m.funcs)        # supplied by lib/rt_core.c
     em.boundary_set = bnd
     em.boundary = []
+    # permission instrumentation (DESIGN 3.4): (llvm struct name, field index) -> macro; every plain load/store through a GEP to such a
+    # field is preceded by MACRO(pointer to the enclosing object)
+    em.perm = {}
+    for spec_, mac in (perms or {}).items():
+        q, fld_ = spec_.rsplit('.', 1)
+        if em.namer is None: raise Unsupported('--perm needs debug info')
+        hits = [ln for ln, did in em.namer.map.items() if em.di.qualname(em.di.node(did)) == q]
+        for ln in hits:
+            ns = em.namer.names.get(ln) or []
+            for k_, nm_ in enumerate(ns):
+                if nm_ == fld_: em.perm[(ln, k_)] = mac
     for al, g in (gnames or {}).items():
         if g not in m.globals: raise Unsupported('global alias %s: @%s not in module' % (al, g))
         em.used_globals[g] = True
@@ -1443,6 +1464,7 @@ def translate(ll_path, roots_rx, boundary_rx, out_prefix, names=None, no_names=F
         aliases=alias,
         struct_fields={san(k): v for k, v in (em.namer.names.items() if em.namer else []) if k in em.need_types},
         atomics=em.atomic_sites,
+        perm_sites=em.perm_sites,
     )
     json.dump(summ, open(out_prefix + '.json', 'w'), indent=1)
     return summ
@@ -1455,6 +1477,7 @@ def main():
     ap.add_argument('--name', action='append', default=[], help='alias=regex')
     ap.add_argument('--name-opt', dest='name_opt', action='append', default=[], help='alias=regex (optional: skipped when the unit does not contain the function)')
     ap.add_argument('--type', action='append', default=[], help='alias=qualified C++ class name')
+    ap.add_argument('--perm', action='append', default=[], help='qualified::class.member=MACRO : MACRO(obj) is emitted before every plain load/store of that member')
     ap.add_argument('--ptype', action='append', default=[], help='alias=regex#k : pointee type of parameter k of the matching function')
     ap.add_argument('--global', dest='gl', action='append', default=[], help='alias=llvm global name')
     ap.add_argument('--out')
@@ -1468,7 +1491,7 @@ def main():
         return 0
     try:
         names = dict(x.split('=', 1) for x in a.name)
-        translate(a.ll, a.root, a.boundary, a.out, names, types=dict(x.split('=', 1) for x in a.type), gnames=dict(x.split('=', 1) for x in a.gl), opt_names=dict(x.split('=', 1) for x in a.name_opt), ptypes=dict(x.split('=', 1) for x in a.ptype))
+        translate(a.ll, a.root, a.boundary, a.out, names, types=dict(x.split('=', 1) for x in a.type), gnames=dict(x.split('=', 1) for x in a.gl), opt_names=dict(x.split('=', 1) for x in a.name_opt), ptypes=dict(x.split('=', 1) for x in a.ptype), perms=dict(x.split('=', 1) for x in a.perm))
     except (Unsupported, SyntaxError, KeyError) as e:
         sys.stderr.write('ir2c: UNSUPPORTED: %s: %s\n' % (type(e).__name__, e))
         return 2
